@@ -2,11 +2,11 @@
 import os, re, subprocess, shutil, time
 import common
 
-KANI_DIR = os.path.join(common.VERIF, 'kani')
 
 
 def run_harnesses(names=None, timeout=1500):
     """returns {harness: {'status': 'success'|'failed'|'inconclusive', 'time_s':.., 'detail':..}}"""
+    KANI_DIR = common.crate_dir('kani')
     shutil.copyfile(os.path.join(common.REPO, 'Cargo.lock'), os.path.join(KANI_DIR, 'Cargo.lock'))
     env = dict(common.ENV, CARGO_TARGET_DIR=os.path.join(common.SCRATCH, 'kani-target'))
     cmd = ['cargo', 'kani']
